@@ -170,7 +170,7 @@ TREE_LAYOUTS = ("C", "F", "view", "ro")
 
 def tree_opts(rng, fn, grouping):
     """the dimensions of a call-tree experiment beyond (function, settings, grouping): see calltree_experiment"""
-    return {"ids": rng.choice(TREE_IDS) if grouping else "plain", "dtype": rng.choice(["f8", "f8", "f4"]),
+    return {"ids": rng.choice(TREE_IDS) if grouping else "plain", "dtype": rng.choice(["f8", "f8", "f4", "i2"]),
             "layout": rng.choice(TREE_LAYOUTS), "first": rng.choice(["groups", "alone"]), "prior": rng.random() < 0.5,
             "sizes": rng.choice(["seed", "tiny"]) if fn == "car" else "seed"}
 
@@ -236,6 +236,8 @@ def calltree_experiment(fn, settings, grouping, seed, opts=None):
     f4 = opts.get("dtype") == "f4"
     if f4:
         x = x.astype(np.float32)
+    if opts.get("dtype") == "i2":
+        x = np.round(x * 40).astype(np.int16)            # raw ADC counts handed over as they come from the file
     layout = opts.get("layout", "C")
     if layout == "ro" and fn != "car" and not grouping:
         layout = "C"                          # without groups the gain control of kfilt / fk works in place on its argument
@@ -843,6 +845,14 @@ def plan(ctx, cases):
         for kfl in (None, {"bounds": [0, 0.01], "btype": "hp"}):
             jobs.append(("calltree", ("fk", {"si": 0.002, "dx": 5, "vbounds": [1200, 1500], "btype": bt, "kfilt": kfl, "lagc": 0.05,
                                              "ntr_pad": 0, "ntr_tap": None}, [0, 0, 0, 1, 1, 1], rng.randint(0, 2 ** 31 - 1))))
+    # raw integer counts with channel groups: the group call must still equal each group on its own (and reference to zero)
+    i2 = {"dtype": "i2", "ids": "plain", "layout": "C", "first": "groups", "prior": False, "sizes": "seed"}
+    jobs.append(("calltree", ("car", {"operator": "average"}, [0, 1, 0, 1, 2, 2], rng.randint(0, 2 ** 31 - 1), dict(i2))))
+    jobs.append(("calltree", ("car", {"operator": "median"}, [0, 0, 0, 1, 1, 1], 4 * rng.randint(0, 2 ** 28), dict(i2))))    # even groups
+    jobs.append(("calltree", ("kfilt", {"lagc": None, "butter_kwargs": None, "ntr_pad": 0, "ntr_tap": None}, [0, 0, 1, 1, 2, 2],
+                              rng.randint(0, 2 ** 31 - 1), dict(i2))))
+    jobs.append(("calltree", ("fk", {"si": 0.002, "dx": 5, "vbounds": [1200, 1500], "btype": "highpass", "kfilt": None, "lagc": 0.05,
+                                     "ntr_pad": 0, "ntr_tap": None}, [0, 0, 0, 1, 1, 1], rng.randint(0, 2 ** 31 - 1), dict(i2))))
     # AGC lengths
     nagc = 16 if ctx.quick else 120
     for k in range(nagc):
@@ -973,9 +983,7 @@ def run(ctx):
                         "LFP stream: the delay table is applied in LFP samples, as destripe_lfp does",
                         "k-filter with channel groups through destripe(k_kwargs={'collection': ...}): the recursion of kfilt filters each "
                         "group without mirrored padding (ntr_pad=0 hard-wired), a spike on the first / last 8 rows of a group keeps only "
-                        "40-50 % there on the unchanged code; those depths are left out of Kept in that mode (reported to the builder)",
-                        "integer-typed data with channel groups (car / kfilt / fk store the group results into zeros_like(x): truncation) "
-                        "is not generated (reported to the builder)"]
+                        "40-50 % there on the unchanged code; those depths are left out of Kept in that mode (reported to the builder)"]
 
 
 def selftest(ctx, recs, bad):
